@@ -51,6 +51,19 @@ std::string span_ops(const Sp& s, const long* b, const Case& c)
   if (f == "back") { const long& r = s.back(); return "pos=" + ts(&r - b) + " v=" + ts(r); }
   if (f == "iter") { VL v; for (auto it = s.begin(); it != s.end(); ++it) v.push_back(*it); VL r; for (auto it = s.rbegin(); it != s.rend(); ++it) r.push_back(*it); return "fw=" + join(v) + " rv=" + join(r); }
   if (f == "conv") { DS::span<const long> d(s); return desc(d, b); }
+  if (f == "tost") {   // dynamic -> static extent (explicit), static -> static const
+    if constexpr (Sp::extent == DS::dynamic_extent) {
+      using T = typename Sp::element_type;
+      switch (s.size()) {
+        case 0: { DS::span<T, 0> t(s); DS::span<const T, 0> u(t); return desc(t, b) + " | " + desc(u, b); }
+        case 1: { DS::span<T, 1> t(s); DS::span<const T, 1> u(t); return desc(t, b) + " | " + desc(u, b); }
+        case 3: { DS::span<T, 3> t(s); DS::span<const T, 3> u(t); return desc(t, b) + " | " + desc(u, b); }
+        case 4: { DS::span<T, 4> t(s); DS::span<const T, 4> u(t); return desc(t, b) + " | " + desc(u, b); }
+        case 7: { DS::span<T, 7> t(s); DS::span<const T, 7> u(t); return desc(t, b) + " | " + desc(u, b); }
+      }
+    }
+    return "UNKNOWN-SPAN-OP";
+  }
   if (f == "asg") {   // copy assignment, const/reverse iterators, default construction (dynamic extent)
     Sp t(s); Sp u(t); u = s;
     bool ok = u.data() == s.data() && u.size() == s.size() && (s.cend() - s.cbegin()) == std::ptrdiff_t(s.size()) &&
@@ -127,6 +140,7 @@ int main(int argc, char** argv)
         else if (c.op.rfind("p4", 0) == 0) out = probe4(c);
         else if (c.op.rfind("p5", 0) == 0) out = probe5(c);
         else if (c.op.rfind("p6", 0) == 0) out = probe6(c);
+        else if (c.op.rfind("p7", 0) == 0) out = probe7(c);
         else out = "NO-INSTANCE " + key;
       }
     } catch (const std::exception& e) { out = std::string("THROWN ") + e.what(); }
